@@ -1,6 +1,6 @@
 (* A syntactic classifier for programs of the step language: decides (conservatively) whether a
    program lies in the fragment covered by c01_par_equiv_seq / c03_optimise_sound and with which
-   order class. Definitions only; soundness is proved in Proofs/EngineClassify.v. *)
+   order class (E / P / D, see Engine/Static.v). Definitions only; soundness is proved in Proofs/EngineClassify.v. *)
 From Coq Require Import List ZArith Bool Arith.
 From IB Require Import Engine.Val Engine.Ops Engine.Nodes Engine.Planner Engine.Lang Engine.Denote
      Engine.Static.
@@ -17,8 +17,9 @@ Definition cid_functional (c : cid) : bool :=
 Definition batch_elementwise (b : bfun) : bool :=
   match b with BEach _ | BDup => true | _ => false end.
 
-(* one join-free step: new element tag and order class, or None when outside the fragment *)
-Definition classify_step (t : tag) (c : cls) (st : step) : option (tag * cls) :=
+(* one join-free step on rows whose every row is determined (class E or P): new element tag and
+   order class, or None when outside the fragment *)
+Definition classify_step_flat (t : tag) (c : cls) (st : step) : option (tag * cls) :=
   match st with
   | SMap _ | SUnkey => Some (TU, c)
   | SFilter _ => Some (t, c)
@@ -33,7 +34,9 @@ Definition classify_step (t : tag) (c : cls) (st : step) : option (tag * cls) :=
   | SMapValuesBatches _ (BEach _) => if Nat.eqb t TKV then Some (TKV, c) else None
   | SMapValuesBatches _ _ => None
   | SGroupByKey =>
-      match c with E => if Nat.eqb t TKV then Some (TKG, P) else None | P => None end
+      (* on a determined sequence the groups are determined (as a multiset of rows); on a multiset
+         of rows the order inside each group is not: class D *)
+      if Nat.eqb t TKV then Some (TKG, match c with E => P | _ => D end) else None
   | SCombineValues cb =>
       if Nat.eqb t TKV && cid_functional cb then Some (comb_out_tag cb, P) else None
   | SCombineValuesLifted cb =>
@@ -50,6 +53,42 @@ Definition classify_step (t : tag) (c : cls) (st : step) : option (tag * cls) :=
   | SCustomMap _ => Some (TU, c)
   end.
 
+(* element functions that do not look at the order of a list / of the group of a grouped row *)
+Definition efun_list_inv (f : efun) : bool :=
+  match f with
+  | FSum | FLen | FComp FSum _ | FComp FLen _ => true
+  | _ => false
+  end.
+Definition efun_row_inv (f : efun) : bool :=
+  match f with
+  | FFst | FComp FFst _ => true
+  | FComp FSnd g => efun_list_inv g
+  | _ => false
+  end.
+
+(* one join-free step on rows of class D (grouped rows whose groups are known as multisets): only
+   steps that do not look at the order inside a group. SFilter / the expanders other than GElems
+   read a row through `ikey` only, i.e. its key. *)
+Definition classify_step_d (t : tag) (st : step) : option (tag * cls) :=
+  match st with
+  | SFilter _ | SDebug _ => Some (t, D)
+  | SUnkey => Some (TU, D)
+  | SGroupValuesToList => if Nat.eqb t TKG then Some (TKV, D) else None
+  | SFlatMap (GRepeat _) => Some ((if Nat.eqb t TKG then TKV else t), D)
+  | SFlatMap _ => Some ((if Nat.eqb t TKG then TKV else t), P)       (* GElems: flatten the groups *)
+  | SMap f => if efun_row_inv f then Some (TU, P) else None
+  | SMapValues f => if Nat.eqb t TKV && efun_list_inv f then Some (TKV, P) else None
+  | SCombineValuesLifted cb =>
+      if Nat.eqb t TKG && cid_functional cb then Some (comb_out_tag cb, P) else None
+  | _ => None
+  end.
+
+Definition classify_step (t : tag) (c : cls) (st : step) : option (tag * cls) :=
+  match c with
+  | D => classify_step_d t st
+  | _ => classify_step_flat t c st
+  end.
+
 Fixpoint classify_steps (t : tag) (c : cls) (steps : list step) : option (tag * cls) :=
   match steps with
   | [] => Some (t, c)
@@ -59,8 +98,10 @@ Fixpoint classify_steps (t : tag) (c : cls) (steps : list step) : option (tag * 
                end
   end.
 
+Definition cls_flatb (c : cls) : bool := match c with D => false | _ => true end.
+
 (* a whole program: join-free, or exactly one top-level join whose two sides are join-free
-   classified programs on (Val, Val) rows; after the join (and the harness's normalising map) the
+   classified programs on (Val, Val) rows, each row determined (not class D); after the join (and the harness's normalising map) the
    rows are (Val, Val) again, known as a multiset *)
 Fixpoint split_at_join (steps : list step)
   : list step * option (join_kind * list step * list val * list step) :=
@@ -75,8 +116,9 @@ Definition classify (s : src) (steps : list step) : option (tag * cls) :=
   | (pre, None) => classify_steps (src_tag s) E pre
   | (pre, Some (k, rs, rd, post)) =>
       match classify_steps (src_tag s) E pre, classify_steps TKV E rs with
-      | Some (tl, _), Some (tr, _) =>
-          if Nat.eqb tl TKV && Nat.eqb tr TKV then classify_steps TKV P post else None
+      | Some (tl, cl), Some (tr, cr) =>
+          if Nat.eqb tl TKV && Nat.eqb tr TKV && cls_flatb cl && cls_flatb cr
+          then classify_steps TKV P post else None
       | _, _ => None
       end
   end.
